@@ -124,9 +124,8 @@ EigendecompositionResult eigendecomposition_impl_randomized(const MatrixType& wm
         }
         else if (norm < 1e-4)
         {
-            // numerically zero matrix: no direction to find (reported as eigendecomposition_error below)
-            for (int k = i; k < Y.cols(); k++)
-                Y.col(k).setZero();
+            // numerically zero matrix: no direction to find
+            throw eigendecomposition_error("eigendecomposition failed");
         }
         Y.col(i) *= (1.f / norm);
     }
